@@ -146,6 +146,16 @@ AmpCases(zzdummy) ==
   IN [y \in DOMAIN sel |-> [e |-> "lang", text |-> Spell(Toks(InsTok(AmpSkeletons[cells[sel[y]][1]], cells[sel[y]][2], "Amp")), ModeAt(y), y % 2)]]
      \o [q \in DOMAIN AmpSkeletons |-> [e |-> "lang", text |-> Spell(Toks(AmpSkeletons[q]), "spaced", 0)]]
 
+(* blanks: every sentence of at most N tokens with each kind of blank (CR, CR LF, runs of blanks) between its tokens, before the
+   first and after the last one *)
+WsCases(zzdummy) ==
+  LET G == Sets(N)
+      S == SetToSeq(UNION {G.E[n] : n \in 1..N})
+      modes == <<"cr", "crlf", "wide", "mixed">>
+      pads == << <<<<>>, <<>>>>, <<<<13>>, <<>>>>, <<<<>>, <<13, cNL>>>>, <<<<9, cNL>>, <<cSPACE, 13>>>> >>
+      cells == SetToSeq({<<q, m, p>> : q \in DOMAIN S, m \in DOMAIN modes, p \in DOMAIN pads})
+  IN [x \in DOMAIN cells |-> [e |-> "lang", text |-> pads[cells[x][3]][1] \o Spell(Toks(S[cells[x][1]]), modes[cells[x][2]], x % 2) \o pads[cells[x][3]][2]]]
+
 (* Unicode class probes: a character of a class that Unicode-aware predicates (is_numeric, is_alphabetic, is_whitespace) accept
    but the grammar does not, right after a character that starts a token; alone, continued, and inside the usual frames *)
 Probe == <<1635, 178, 189, 9312, 65297, 120783, 3047, 65313, 233, 1072, 160, 12288, 8232, 133, 8203, 65279, 127, 128, 769, 8255>>
@@ -194,7 +204,7 @@ SpellCases(zzdummy) ==
 
 Cases(zzdummy) == CASE IOEnv.MODE = "tokens" -> TokenCases(0) [] IOEnv.MODE = "chars" -> CharCases(0) [] IOEnv.MODE = "near" -> NearCases(0)
            [] IOEnv.MODE = "sent" -> SentCases(0) [] IOEnv.MODE = "spell" -> SpellCases(0)
-           [] IOEnv.MODE = "chains" -> ChainCases(0) [] IOEnv.MODE = "juxta" -> JuxtaCases(0) [] IOEnv.MODE = "wrap" -> WrapCases(0) [] IOEnv.MODE = "amp" -> AmpCases(0) [] IOEnv.MODE = "uni" -> UniCases(0) [] IOEnv.MODE = "numerals" -> NumeralCases(0)
+           [] IOEnv.MODE = "chains" -> ChainCases(0) [] IOEnv.MODE = "juxta" -> JuxtaCases(0) [] IOEnv.MODE = "wrap" -> WrapCases(0) [] IOEnv.MODE = "ws" -> WsCases(0) [] IOEnv.MODE = "amp" -> AmpCases(0) [] IOEnv.MODE = "uni" -> UniCases(0) [] IOEnv.MODE = "numerals" -> NumeralCases(0)
 
 ASSUME ndJsonSerialize(IOEnv.OUT, Cases(0))
 ASSUME ndJsonSerialize(IOEnv.OUT \o ".docs", <<[docs |-> Docs]>>)
